@@ -50,6 +50,8 @@ let op_of code a b =
   | 12 -> Some ("ct", OCtorTarget (w, zi b))
   | 13 -> Some ("cn", OCtorNull w)
   | 14 -> Some ("cd", OCtorNull w)
+  | 15 -> Some ("an", OAssignNullFn w)
+  | 16 -> Some ("cf", OCtorNullFn w)
   | _ -> None
 
 let mask_s (m : bool list) =
@@ -188,7 +190,10 @@ let run_case op t =
       let pr = function
         | Some l ->
             join ([ "ok"; string_of_int (List.length l) ]
-                  @ List.map (fun (v, moved) -> str_of_z v ^ ":" ^ (if moved then "2" else "1") ^ ":2") l)
+                  @ List.map (fun (v, b) ->
+                        match b with
+                        | Constructed moved -> str_of_z v ^ ":" ^ (if moved then "2" else "1") ^ ":2"
+                        | Aliased -> str_of_z v ^ ":alias") l)
         | None -> "ill" in
       (pr (tuple_cat_t_m ops), pr (tuple_cat_t_spec ops))
   | "catkind" ->
@@ -210,6 +215,20 @@ let run_case op t =
             join [ "ok"; "3"; "4"; h; h; f; f ]
         | None -> "ill" in
       (pr (pair_assign_m dk sk s), pr (pair_assign_spec dk sk s))
+  | "catk" ->
+      let k = kind_of_code (next_int t) in
+      let c = cat_of_code (next_int t) in
+      if code_of_kind k >= 4 && code_of_cat c < 2 then ("unsupported", "unsupported")
+      else
+        let pr kind = function
+          | Some [ (_, b) ] -> join [ "ok"; string_of_int (code_of_kind kind); built_s b ]
+          | _ -> "ill" in
+        let ops = [ (c, [ (k, zi 5) ]) ] in
+        (pr (cat_result_kind_m k) (tuple_cat_t_m ops), pr (cat_result_kind_spec k) (tuple_cat_t_spec ops))
+  | "telem" ->
+      let k = kind_of_code (next_int t) in
+      let pr r = let c = string_of_int (code_of_kind r) in join [ "ok"; c; c; c ] in
+      (pr (tuple_element_kind_m k), pr (tuple_element_kind_spec k))
   | "pctor" ->
       let k = kind_of_code (next_int t) in
       let a = cat_of_code (next_int t) in
@@ -238,6 +257,86 @@ let run_case op t =
       if which = 0 then (prv (make_pair_transfer_m a), prv (make_value_spec a))
       else if which = 1 then (prv (make_tuple_transfer_m a), prv (make_value_spec a))
       else (prf (forward_as_tuple_m a), prf (forward_as_tuple_spec a))
+  | "bindfront2" ->
+      let w = cat_of_code (next_int t) in
+      let a1 = cat_of_code (next_int t) in
+      let a2 = cat_of_code (next_int t) in
+      let pr = function
+        | Some (f, [ b1; b2; x; y ]) ->
+            join [ "ok"; "r1"; "n1"; call_s f [ (code_of_cat b1, 21); (code_of_cat b2, 31); (code_of_cat x, 42); (code_of_cat y, 43) ] ]
+        | _ -> "ill" in
+      (pr (bindfront_call_all_m w (nat_of_int 2) [ a1; a2 ]), pr (wrapper_call_all_spec w (nat_of_int 2) [ a1; a2 ]))
+  | "notfn2" ->
+      let w = cat_of_code (next_int t) in
+      let a1 = cat_of_code (next_int t) in
+      let a2 = cat_of_code (next_int t) in
+      let v = next_int t in
+      (* the predicate returns (all arguments even); the arguments are v and v + 2 *)
+      let res = if not (v mod 2 = 0) then "t" else "f" in
+      let pr = function
+        | Some (f, [ x; y ]) -> join [ "ok"; res; "n1"; call_s f [ (code_of_cat x, v); (code_of_cat y, v + 2) ] ]
+        | _ -> "ill" in
+      (pr (notfn_call_all_m w [ a1; a2 ]), pr (wrapper_call_all_spec w (nat_of_int 0) [ a1; a2 ]))
+  | "refwrap2" ->
+      let c = next_int t = 1 in
+      let a1 = cat_of_code (next_int t) in
+      let a2 = cat_of_code (next_int t) in
+      let pr = function
+        | Some (f, [ x; y ]) -> join [ "ok"; "r1"; "n1"; call_s f [ (code_of_cat x, 11); (code_of_cat y, 12) ] ]
+        | _ -> "ill" in
+      (pr (refwrap_call_all_m c [ a1; a2 ]), pr (refwrap_call_all_spec c [ a1; a2 ]))
+  | "ipfcall2" | "fref2" ->
+      let fc = if op = "fref2" then cat_of_code (next_int t) else lV in
+      let sp = next_int t in
+      let a1 = cat_of_code (next_int t) in
+      let a2 = cat_of_code (next_int t) in
+      let k1, k2 = match sp with 0 -> (0, 2) | 1 -> (2, 4) | 2 -> (4, 0) | 3 -> (3, 5) | _ -> (5, 3) in
+      let ps = [ kind_of_code k1; kind_of_code k2 ] in
+      let pr = function
+        | Some (f, [ x; y ]) -> join [ "ok"; "r1"; "n1"; call_s f [ (code_of_cat x, 11); (code_of_cat y, 12) ] ]
+        | _ -> "ill" in
+      if op = "fref2" then (pr (fref_call_all_m fc ps [ a1; a2 ]), pr (fref_call_all_spec fc ps [ a1; a2 ]))
+      else (pr (ipf_call_all_m ps [ a1; a2 ]), pr (ipf_call_all_spec ps [ a1; a2 ]))
+  | "ret" ->
+      let which = next_int t in
+      let rki = next_int t in
+      let r = kind_of_code (if rki = 0 then 0 else rki + 1) in
+      let pr = function
+        | Some (x : ty) -> (match x.rf with RNone -> join [ "ok"; sc x; "v7" ] | _ -> join [ "ok"; sc x; "same" ])
+        | None -> "ill" in
+      let m = match which with
+        | 0 -> invoke_ret_m r | 1 -> invoke_memptr_ret_m r | 2 -> apply_ret_m r | 3 -> refwrap_ret_m r
+        | _ -> bindfront_ret_m r in
+      (pr m, pr (transparent_ret_spec r))
+  | "retsig" ->
+      let fref = next_int t = 1 in
+      let rsi = next_int t in
+      let rki = next_int t in
+      let rs = kind_of_code (if rsi = 0 then 0 else rsi + 1) in
+      let r = kind_of_code (if rki = 0 then 0 else rki + 1) in
+      if rsi > 0 && rki = 0 then ("unsupported", "unsupported")
+      else
+        let pr = function
+          | Some (x : ty) -> (match x.rf with RNone -> join [ "ok"; sc x; "v7" ] | _ -> join [ "ok"; sc x; "same" ])
+          | None -> "ill" in
+        (pr (if fref then fref_ret_m rs r else ipf_ret_m rs r), pr (sig_ret_spec rs r))
+  | "refwf" ->
+      let a = cat_of_code (next_int t) in
+      ( join [ "ok"; b2s (refwrap_ctor_wf_m false a); b2s (refwrap_ctor_wf_m true a); b2s (ref_wf_m a); b2s (cref_wf_m a) ],
+        join [ "ok"; b2s (refwrap_ctor_wf_spec false a); b2s (refwrap_ctor_wf_spec true a); b2s (ref_wf_spec a); b2s (cref_wf_spec a) ] )
+  | "prelnan" ->
+      (* members are doubles; token 777777 is NaN (None).  model: pair.hpp's definitions over the partial order;
+         spec: the C++20 relations synthesised from operator<=> *)
+      let v () = let x = next_z t in if str_of_z x = "777777" then None else Some x in
+      let a1 = v () in let a2 = v () in let b1 = v () in let b2 = v () in
+      let p = (a1, a2) and q = (b1, b2) in
+      let lt a b = is_lt (ocmp a b) in
+      let eq a b = (match ocmp a b with PEquiv -> true | _ -> false) in
+      let m = [ pair_eq_m eq p q; pair_ne_m eq p q; pair_lt_m lt p q; pair_le_m lt p q; pair_gt_m lt p q; pair_ge_m lt p q ] in
+      let c = pair_cmp3_spec ocmp p q in
+      let e = eq a1 b1 && eq a2 b2 in
+      let s = [ e; not e; is_lt c; is_le c; is_gt c; is_ge c ] in
+      (join ("ok" :: List.map b2s m), join ("ok" :: List.map b2s s))
   | "prel" ->
       let a1 = next_z t in let a2 = next_z t in let b1 = next_z t in let b2 = next_z t in
       let p = (a1, a2) and q = (b1, b2) in
@@ -319,6 +418,13 @@ let run_case op t =
       let which = next_int t in
       let r = opt_cat true (ret_decltype_auto lV) in
       ignore which; (r, r)
+  | "refwrapstd" ->
+      (* values only: ref(std::function)(x) = x + 1, cref(StrLen)(string of |x| mod 7 characters) *)
+      let x = next_z t in
+      let r = refwrap_std_m x in
+      let sp = refwrap_std_spec x in
+      (join [ "ok"; str_of_z (fst r); str_of_z (snd r); str_of_z (snd r); str_of_z (snd r); "1"; "1" ],
+       join [ "ok"; str_of_z (fst sp); str_of_z (snd sp); str_of_z (snd sp); str_of_z (snd sp); "1"; "1" ])
   | "refwrapops" ->
       let a = next_z t in let b = next_z t in
       let pr ((s, a'), b') = join [ "ok"; "1"; "1"; "1"; "1"; "1"; str_of_z s; str_of_z a'; str_of_z b' ] in
